@@ -38,6 +38,11 @@ using L_V11 = List<D<P, sz, 8>, D<V, Str>, D<P, Str>>;
 using L_P5 = List<D<P, Cpy>, D<P, u8>>;
 using L_F6 = List<D<F, Cpy>, D<P, u32>>;
 using L_V10 = List<D<P, sz, 8>, D<V, Cpy>, D<P, Cpy>>;
+// trivially constructible but not trivially copyable (user-provided assignment), alone and next to non-trivial types
+using L_P8 = List<D<P, Asg>, D<P, Trk>>;
+using L_P9 = List<D<P, Asg>, D<P, u8>>;
+using L_F9 = List<D<F, Asg>, D<P, Trk>>;
+using L_V12 = List<D<P, sz, 8>, D<V, Asg>, D<P, Trk>>;
 // mixed
 using L_M1 = List<D<F, f32, 16>, D<P, u32>, D<P, sz, 8>, D<V, f32, 8>>;
 using L_M2 = List<D<F, Trk>, D<P, u8>, D<V, Trk>>;
